@@ -184,7 +184,10 @@ def write_evidence(prop: str, tier: str, seed: int, level: str, obs: List[Ob], o
                    wall: float, assumptions: List[str], trusted_base: List[str], violations: int,
                    known_hits: List[str], extra: Dict[str, Any]) -> str:
     known_ids = {h.split(" ")[2].rstrip(":") for h in known_hits}   # "KNOWN-FINDING: property=X <ob id>: ..."
-    proofish = [(o, r) for o, r in zip(obs, outs) if o.kind in ("proof", "finite") and o.id not in known_ids]
+    # obligations whose proof attempt was undecided and that were handed to their bounded oracle are reported as bounded
+    # (never counted as proved, and not counted as proof obligations of this run)
+    downgraded = [o.id for o, r in zip(obs, outs) if o.kind in ("proof", "finite") and r.status.startswith("bounded")]
+    proofish = [(o, r) for o, r in zip(obs, outs) if o.kind in ("proof", "finite") and o.id not in known_ids and not r.status.startswith("bounded")]
     bounded = [(o, r) for o, r in zip(obs, outs) if o.kind == "bounded" or r.status.startswith("bounded")]
     n_ob = len(proofish)
     n_dis = sum(1 for o, r in proofish if r.status == "discharged")
@@ -212,6 +215,7 @@ def write_evidence(prop: str, tier: str, seed: int, level: str, obs: List[Ob], o
         "bounded_cases": sum(r.queries for o, r in bounded),
         "bounded_passed": sum(1 for o, r in bounded if r.status == "bounded-pass"),
         "undecided": [o.id for o, r in zip(obs, outs) if r.status in ("undecided", "error")],
+        "proof_undecided_decided_by_bounded_oracle": downgraded,
         "known_findings_reported": known_hits,
         "evaluations": sum(r.queries for r in outs),
         "distinct_nontrivial": len({o.id for o in obs}),
